@@ -213,7 +213,7 @@ impl Flounder {
         let base_time = available / 25;
         // Never plan to spend more than half of what is left on the clock,
         // otherwise a large increment on a short clock loses on time
-        let allocated = (base_time + increment).min(time_left / 2);
+        let allocated = base_time.saturating_add(increment).min(time_left / 2);
 
         Some(Duration::from_millis(allocated))
     }
